@@ -51,8 +51,6 @@ def run(ctx):
     ctx.clause("the chosen vertex is one of the candidates, the nearest one")
     cand = s.env.get("candidates")
     ret = s.ret()
-    asg = [e for e in s.events if e.kind == "assign" and e.name == "best"]
-    names = {a.name for a in s.events if a.kind == "assign"}
     CAND = None
     for e in s.events:
         if e.kind == "assign" and e.value[0] == "call" and e.value[1] == "numpy.concatenate" and not e.loops():
@@ -79,11 +77,17 @@ def run(ctx):
               "distances computed over the list they index", f"find_best returns one of {[T.show(T.alpha(x))[:80] for x in leaves]}")
 
     ctx.clause("search radius grows from 0.5% and stops below the 10% cut-off (last radius 8%)")
-    sp0 = [e for e in s.events if e.kind == "assign" and e.name == "spread" and not e.loops()]
-    dbl = [e for e in s.events if e.kind == "assign" and e.name == "spread" and e.loops()]
+    wl_all = [g for e in apps for g in e.guard if g[0] == "while"]
+    spread_names = {x[1] for g in wl_all for x in T.subterms(g[2]) if x[0] == "lc" and any(
+        c[0] == "cmp" and c[1] == "lt" and c[2] == x and c[3] == T.attr(SELF, "cutoff") for c in T.conjuncts(g[2]))}
+    if len(spread_names) != 1:
+        raise AnalysisError("find_best: the growing search radius (compared with self.cutoff in the loop condition) not found - re-bind the anchor")
+    spread_name = next(iter(spread_names))
+    sp0 = [e for e in s.events if e.kind == "assign" and e.name == spread_name and not e.loops()]
+    dbl = [e for e in s.events if e.kind == "assign" and e.name == spread_name and e.loops()]
     ok = len(sp0) == 1 and sp0[0].value == T.num(Fraction(5, 1000)) and bool(dbl) and all(e.value == T.mul(T.num(2), e.old) for e in dbl)
     wl = [g for e in apps for g in e.guard if g[0] == "while"]
-    ok_cut = bool(wl) and all(any(c == T.cmp("Lt", ("lc", "spread", g[1]), T.attr(SELF, "cutoff")) for c in T.conjuncts(g[2])) for g in wl)
+    ok_cut = bool(wl) and all(any(c == T.cmp("Lt", ("lc", spread_name, g[1]), T.attr(SELF, "cutoff")) for c in T.conjuncts(g[2])) for g in wl)
     init = repo.func(f"{TS}.__post_init__")
     ctx.touch(init)
     si = sym.summarize(repo, init.qualname)
@@ -103,13 +107,17 @@ def run(ctx):
     sc = sym.summarize(repo, cm.qualname, heap={T.attr(SELF, "cm"): T.FALSE})
     ctx.config("cm=False (ForSys default)")
     ctx.clause("honours user pairings: merged first, and no vertex that is already mapped is re-assigned")
-    minit = [e for e in sc.events if e.kind == "assign" and e.name == "mapping" and not e.loops()]
+    map_names = {e.attr for e in sc.stores() if e.sub and e.value[0] == "attr" and e.value[2] == "id" and e.value[1][0] == "call" and e.value[1][1] == fb.qualname}
+    if len(map_names) != 1:
+        raise AnalysisError("create_mapping: the dictionary receiving find_best(...).id not found - re-bind the anchor")
+    MAP = next(iter(map_names))
+    minit = [e for e in sc.events if e.kind == "assign" and "$" + e.name == MAP and not e.loops()]
     ok = bool(minit) and minit[-1].value[0] == "dict" and any(k == ("str", "**") and v == guess for k, v in minit[-1].value[1])
-    first_store = min((e.node.lineno for e in sc.stores("$mapping")), default=None)
+    first_store = min((e.node.lineno for e in sc.stores(MAP)), default=None)
     ctx.check(ok and first_store is not None and minit[-1].node.lineno < first_store, "GUARD", f"{cm.qualname} / GUARD / initial_guess merged into the mapping before the search", ctx.where(cm),
               "mapping = {**mapping, **initial_guess} precedes every assignment", "the user-supplied pairings are not merged into the mapping before the search")
-    stores = [e for e in sc.stores("$mapping") if e.sub and e.value != T.NONE]
-    nones = [e for e in sc.stores("$mapping") if e.sub and e.value == T.NONE]
+    stores = [e for e in sc.stores(MAP) if e.sub and e.value != T.NONE]
+    nones = [e for e in sc.stores(MAP) if e.sub and e.value == T.NONE]
     if len(stores) < 2:
         raise AnalysisError("create_mapping: assignments of the mapping not found - re-bind the anchor")
     pools = {}
@@ -172,7 +180,7 @@ def run(ctx):
     ctx.clause("following the correspondence forward and then backward returns the start: backward steps invert the same step's map")
     pt, ti, tf = (T.sym(p) for p in gp.params[1:4])
     fwd = T.cmp("Lt", ti, tf)
-    tr = [e for e in sg.events if e.kind == "assign" and e.name == "timerange"]
+    tr = [e for e in sg.events if e.kind == "assign" and not e.loops() and any(x[0] == "call" and x[1] == "numpy.arange" for x in T.subterms(e.value))]
     want_f = T.call("numpy.arange", (ti, tf, T.num(1)))
     want_b = T.idx(T.call("numpy.arange", (tf, ti, T.num(1))), ("slice", T.NONE, T.NONE, T.num(-1)))
     okr = {(tuple(e.conds()), e.value) for e in tr} == {((fwd,), want_f), ((T.b_not(fwd),), want_b)}
